@@ -493,3 +493,10 @@ def run(ctx):
     from rules import round4
     round4.check_unregistered_model_byte(ctx, "R19.6")
     round4.check_ring_helpers(ctx, "R19.6")
+    ctx.rule("R19.7", "NULL from the data never reaches a dereference: for each of the emulator's parson getter call "
+             "sites the enclosing function is explored with that getter returning NULL (key missing or of another type) - "
+             "no libc string routine may receive it and nothing may be dereferenced through it; likewise for every "
+             "task / type lookup of the task models returning NULL (an id the trace never declared)")
+    from rules import round5
+    round5.check_json_null_safety(ctx, "R19.7")
+    round5.check_lookup_null_safety(ctx, "R19.7")
